@@ -269,9 +269,14 @@ func ExecDispose(c DCase) *DRun {
 		names = append(names, n)
 		schema[n] = am.State{Multi: i == c.N-1}
 	}
-	if c.Graceful > 0 {
+	if c.Graceful > 0 && c.Graceful < 3 {
 		schema[am.StateDisposing] = am.State{Remove: am.S{"Disposed"}}
 		schema["Disposed"] = am.State{Remove: am.S{am.StateDisposing}}
+	}
+	if c.Graceful == 3 {
+		// the schema has a Start state and it is active when the disposal lands (Dispose() then first
+		// removes Start and grants a grace period)
+		schema[am.StateStart] = am.State{}
 	}
 	parent, cancelParent := context.WithCancel(context.Background())
 	defer cancelParent()
@@ -346,6 +351,9 @@ func ExecDispose(c DCase) *DRun {
 			return run
 		}
 	}
+	if c.Graceful == 3 {
+		m.Add1(am.StateStart, nil)
+	}
 	one := func(i int) string { return names[i%c.N] }
 	// a tracer whose TransitionEnd can dispose: the transition then goes on (subscriptions are
 	// processed after the tracers) while the disposal has already begun
@@ -387,50 +395,82 @@ func ExecDispose(c DCase) *DRun {
 		ctx  context.Context
 	}
 	var subs []sub
+	var nearQ []<-chan struct{}
+	hasNear := false
 	for _, sreq := range c.Subs {
-		p := strings.Split(sreq, ":")
-		si := 0
-		if len(p) > 1 {
-			fmt.Sscan(p[1], &si)
+		if strings.HasPrefix(sreq, "whenqueue1") {
+			hasNear = true
 		}
-		st := one(si)
-		switch p[0] {
-		case "when":
-			if !m.Is1(st) {
-				subs = append(subs, sub{kind: sreq, ch: m.When1(st, nil)})
+	}
+	for pass := 0; pass < 2; pass++ {
+		if pass == 1 {
+			if len(nearQ) > 0 && !m.IsDisposed() {
+				m.Toggle1(one(0), nil)
+				for _, ch := range nearQ {
+					if !isClosed(ch) {
+						fail("precondition: a WhenQueue waiter for the next queue tick was not released by the next mutation")
+					}
+				}
 			}
-		case "whennot":
-			if m.Is1(st) {
-				subs = append(subs, sub{kind: sreq, ch: m.WhenNot1(st, nil)})
+		}
+		for _, sreq := range c.Subs {
+			// with near / far queue waiters: those first, then the mutation, then the rest
+			isQ := strings.HasPrefix(sreq, "whenqueue1") || (hasNear && strings.HasPrefix(sreq, "whenqueue:"))
+			if (pass == 0) != isQ && hasNear {
+				continue
 			}
-		case "whentime":
-			subs = append(subs, sub{kind: sreq, ch: m.WhenTime1(st, m.Tick(st)+6, nil)})
-		case "whenticks":
-			subs = append(subs, sub{kind: sreq, ch: m.WhenTicks(st, 5, nil)})
-		case "whentick1":
-			subs = append(subs, sub{kind: sreq, ch: m.WhenTicks(st, 1, nil)})
-		case "whenquery1":
-			base := m.Tick(st)
-			subs = append(subs, sub{kind: sreq, ch: m.WhenQuery(func(cl am.Clock) bool { return cl[st] > base }, nil)})
-		case "whentime1":
-			subs = append(subs, sub{kind: sreq, ch: m.WhenTime1(st, m.Tick(st)+1, nil)})
-		case "whenargs":
-			subs = append(subs, sub{kind: sreq, ch: m.WhenArgs(st, am.A{"never": 1}, nil)})
-		case "whenqueue":
-			subs = append(subs, sub{kind: sreq, ch: m.WhenQueue(am.Result(m.QueueTick() + 50))})
-		case "whenqueueends":
-			// only outstanding while the queue runs; registered anyway
-			ch := m.WhenQueueEnds()
-			if !isClosed(ch) {
-				subs = append(subs, sub{kind: sreq, ch: ch})
+			if !hasNear && pass == 1 {
+				continue
 			}
-		case "whenquery":
-			subs = append(subs, sub{kind: sreq, ch: m.WhenQuery(func(cl am.Clock) bool { return cl[st] > 1000 }, nil)})
-		case "whenerr":
-			subs = append(subs, sub{kind: sreq, ch: m.WhenErr(nil)})
-		case "statectx":
-			if m.Is1(st) {
-				subs = append(subs, sub{kind: sreq, ctx: m.NewStateCtx(st)})
+			p := strings.Split(sreq, ":")
+			si := 0
+			if len(p) > 1 {
+				fmt.Sscan(p[1], &si)
+			}
+			st := one(si)
+			switch p[0] {
+			case "when":
+				if !m.Is1(st) {
+					subs = append(subs, sub{kind: sreq, ch: m.When1(st, nil)})
+				}
+			case "whennot":
+				if m.Is1(st) {
+					subs = append(subs, sub{kind: sreq, ch: m.WhenNot1(st, nil)})
+				}
+			case "whentime":
+				subs = append(subs, sub{kind: sreq, ch: m.WhenTime1(st, m.Tick(st)+6, nil)})
+			case "whenticks":
+				subs = append(subs, sub{kind: sreq, ch: m.WhenTicks(st, 5, nil)})
+			case "whentick1":
+				subs = append(subs, sub{kind: sreq, ch: m.WhenTicks(st, 1, nil)})
+			case "whenquery1":
+				base := m.Tick(st)
+				subs = append(subs, sub{kind: sreq, ch: m.WhenQuery(func(cl am.Clock) bool { return cl[st] > base }, nil)})
+			case "whentime1":
+				subs = append(subs, sub{kind: sreq, ch: m.WhenTime1(st, m.Tick(st)+1, nil)})
+			case "whenargs":
+				subs = append(subs, sub{kind: sreq, ch: m.WhenArgs(st, am.A{"never": 1}, nil)})
+			case "whenqueue":
+				subs = append(subs, sub{kind: sreq, ch: m.WhenQueue(am.Result(m.QueueTick() + 50))})
+			case "whenqueue1":
+				// a waiter for the very next queue tick: served by the mutation made below, before the
+				// disposal (registered around a far waiter, which must survive that and be released by
+				// the disposal)
+				nearQ = append(nearQ, m.WhenQueue(am.Result(m.QueueTick()+1)))
+			case "whenqueueends":
+				// only outstanding while the queue runs; registered anyway
+				ch := m.WhenQueueEnds()
+				if !isClosed(ch) {
+					subs = append(subs, sub{kind: sreq, ch: ch})
+				}
+			case "whenquery":
+				subs = append(subs, sub{kind: sreq, ch: m.WhenQuery(func(cl am.Clock) bool { return cl[st] > 1000 }, nil)})
+			case "whenerr":
+				subs = append(subs, sub{kind: sreq, ch: m.WhenErr(nil)})
+			case "statectx":
+				if m.Is1(st) {
+					subs = append(subs, sub{kind: sreq, ctx: m.NewStateCtx(st)})
+				}
 			}
 		}
 	}
@@ -1107,12 +1147,18 @@ func GenDCase(r *rand.Rand, trigger string) DCase {
 	for k := 0; k < 2+r.Intn(6); k++ {
 		c.Subs = append(c.Subs, fmt.Sprintf("%s:%d", subKinds[r.Intn(len(subKinds))], r.Intn(c.N)))
 	}
+	if r.Intn(3) == 0 {
+		c.Subs = append(c.Subs, "whenqueue1:0", "whenqueue:0", "whenqueue1:0")
+	}
 	switch trigger {
 	case "idle-parent", "parent+dispose":
 		c.Handlers = true
 		c.Graceful = r.Intn(3)
 	case "in-neg", "in-final":
 		c.Handlers = true
+		if r.Intn(2) == 0 {
+			c.Graceful = 3
+		}
 	case "during-queue":
 		c.Stage = queueStages[r.Intn(len(queueStages))]
 	case "mid-dispose":
